@@ -22,7 +22,7 @@ PROPS["C09"] = dict(
     rule="histories of 8-30 (thorough: 8-68) messages issue / edit / mint / burn / transfer-owner / update-params by 4 actors "
          "(owners and strangers, ~7% malformed), 1-4 tokens, scales 0..18, initial supply up to 10^11, maximum up to 2^64-1, "
          "mint amounts at the remaining room and room+-1 and at 2^64 / 2^128 / 2^200 / 2^255 (-1), burns of 2^128 / 2^255, burns of half a unit / one min unit / everything, edits of the maximum at "
-         "floor(supply/10^scale) and +-1 and at the initial supply +-1, tax / mint-fee ratio / base fee over {0, default, 1, odd, 2^195-1, 2^195}; "
+         "floor(supply/10^scale) and +-1 and at the initial supply +-1, tax / mint-fee ratio / base fee over {0, default, 1, odd, 2^195-1, 2^195}, fee denom = the native symbol / another registered symbol / a min-unit-only name / an unregistered name; "
          "a quarter of the histories contain a token whose SYMBOL equals another token's MIN UNIT (other owner) with cross-token mints / burns / edits / "
          "transfers through the shared string; non-trivial = a mint or edit is attempted after a burn, or by a non-owner, or after a transfer of ownership",
     codes={1: "token-supply-exceeds-cap", 2: "token-identity-rebound", 3: "token-non-owner-governs", 4: "token-non-mintable-minted",
@@ -42,7 +42,7 @@ PROPS["C09"] = dict(
 PROPS["C10"] = dict(
     driver="token",
     props_file="Props/C10.v",
-    coq_targets=["Token/Check.vo"],
+    coq_targets=["Token/Check.vo", "Base/DecCheck.vo"],   # DecCheck: the shared arith stream attached to C10 by props.py
     check_module="Token.Check",
     check_fn="check_case_C10",
     coq_shard=20,
